@@ -73,7 +73,8 @@ pub fn constructed(r: &mut Rng, tight_domains: bool) -> LinearModel {
         m.add_named_constraint(a.clone(), rel, rhs, &name);
     }
     for k in 0..r.below(3) {
-        let a: Vec<f64> = (0..n).map(|_| r.range(-3, 3) as f64).collect();
+        // never a constant row: the compiler drops tautologies, which would shift the `need__k` numbering of the family
+        let a: Vec<f64> = loop { let a: Vec<f64> = (0..n).map(|_| r.range(-3, 3) as f64).collect(); if a.iter().any(|c| *c != 0.0) { break a; } };
         let act: f64 = a.iter().zip(&x0).map(|(p, q)| p * q).sum();
         let (rel, rhs) = if r.chance(1, 2) { (Comparison::LessOrEqual, act + 1.0 + r.below(3) as f64) } else { (Comparison::GreaterOrEqual, act - 1.0 - r.below(3) as f64) };
         let name = row_name(r, format!("i{}", k));
